@@ -1,11 +1,11 @@
 #!/bin/bash
 # tools/mutmatrix.sh <tier> <parallel> : every seeded change under /verif/seeded against the check of its own property
-tier=$1; par=${2:-2}
+tier=$1; par=${2:-2}; glob=${3:-C*}
 cd "$(dirname "$0")/.."
 mkdir -p .work/mutmatrix
-for d in seeded/C*/; do
+for d in seeded/$glob/; do
   s=$(basename $d); id=${s%-*}
   ( tools/trymutant.sh $d/patch.diff "$tier" "$id" > .work/mutmatrix/$s.$tier.log 2>&1 ) &
   while [ $(jobs -r | wc -l) -ge $par ]; do sleep 1; done
 done; wait
-for d in seeded/C*/; do s=$(basename $d); echo "$s: $(grep '^== ' .work/mutmatrix/$s.$tier.log | cut -c1-140) $(grep -m1 -A1 '^VIOLATION' .work/mutmatrix/$s.$tier.log | tail -1 | cut -c1-110)"; done
+for d in seeded/$glob/; do s=$(basename $d); echo "$s: $(grep '^== ' .work/mutmatrix/$s.$tier.log | cut -c1-140) $(grep -m1 -A1 '^VIOLATION' .work/mutmatrix/$s.$tier.log | tail -1 | cut -c1-110)"; done
